@@ -18,7 +18,7 @@ From LMScore Require ScoreModel ScoreProofs StripeBridge C01.
 From LMScan Require Import ScanModel ScanLemmas ScanProofs ScanConcrete ConcreteProofs.
 From LMScan Require DiscBridge.
 From LME2E Require Import E2EBridgeStripe E2EBridgeScore E2EPipeline E2EKernelScan E2EProofs E2EStretch.
-From LMPyGlue Require PyGlueModel PyGlueProofs PyGlueHistory PyGlueLazy PyGlueLazyProofs C17.
+From LMPyGlue Require PyGlueModel PyGlueProofs PyGlueHistory PyGlueLazy PyGlueLazyProofs.
 From LME2E Require Import E2EPyCoreDefs.
 Import ListNotations.
 
@@ -64,7 +64,9 @@ Section Theorems.
       (PG.run_history KM st cs) (PG.run_history KM st' cs).
   Proof.
     intros cs st st' H.
-    eapply (LMPyGlue.C17.py_history_depends_on_text_only CM FM WM SM0 sq (SCO.sscores F32.t) KM
+    (* PyGlueHistory.run_history_rel is the lemma behind C17.py_history_depends_on_text_only (this file does not import
+       C17.v, so that building coq/e2e never depends on the translator-generated GenPySig.v) *)
+    eapply (PyGlueHistory.run_history_rel CM FM WM SM0 sq (SCO.sscores F32.t) KM
               (nat * list nat)%type sq_text wrap_ok_); eauto.
     - apply pycore_conf_total. - apply pycore_conf_text. - apply pycore_conf_ok.
     - apply pycore_score_text. - apply pycore_scan_text.
@@ -74,7 +76,9 @@ Section Theorems.
      fixed at its creation *)
   Theorem pycore_scanner_lazy_eq_eager : forall cs,
     PyGlueLazy.run_history_lazy KM [] [] cs = PG.run_history KM [] cs.
-  Proof. intros cs. apply LMPyGlue.C17.py_scanner_lazy_eq_eager. apply pycore_scan_stable. Qed.
+  Proof.
+    intros cs. apply PyGlueLazyProofs.lazy_history; [apply pycore_scan_stable | apply PyGlueLazyProofs.linv_nil].
+  Qed.
 
   (* (4) what calculate returns IS C01's definition: through the glue model (ensure_not_empty, alphabet test,
      configure, score) the StripedScores value, read back position by position, is score_def of every position
@@ -243,7 +247,7 @@ Section Theorems.
     fst (PG.run_call KM st c) <> PG.Done CM WM SM0 sq (SCO.sscores F32.t) PG.Panic.
   Proof.
     intros RT st c Hty.
-    eapply (LMPyGlue.C17.py_panic_only_from_core CM FM WM SM0 sq (SCO.sscores F32.t) KM sm_ty sq_ty wrap_ok_); eauto.
+    eapply (PyGlueProofs.run_call_np CM FM WM SM0 sq (SCO.sscores F32.t) KM sm_ty sq_ty wrap_ok_); eauto.
     apply pycore_guarded_partial. exact RT.
   Qed.
 
@@ -309,6 +313,25 @@ Example pycore_example_runs :
   nth 7 r (PG.Unbound _ _ _ _ _) =
     PG.Done _ _ _ _ _ (PG.Value (PG.RHits _ _ _ _ _ [(4, 1073741824)]%Z true)).
 Proof. vm_compute. split; reflexivity. Qed.
+
+(* the instance against the IMPLEMENTATION, once: the README example (64 nt, 15-row matrix given cell by cell, threshold
+   -10.0) was run through lightmotif-py built from /repo a1b1f91 (lmpy, AVX2 machine, 2026-10-02); the values below are
+   what Python returned - the hits IN ITERATION ORDER for block sizes 4 and 1 (the order is not sorted: 27, 32, 18 and
+   32, 18, 27) and the 50 scores of calculate.  The glue model over the instance computes exactly these. *)
+Example pycore_readme_matches_python :
+  let h := [PG.KStripe 0 (PG.PStr [65; 84; 71; 84; 67; 67; 67; 65; 65; 67; 65; 65; 67; 71; 65; 84; 65; 67; 67; 67; 67; 71; 65; 71; 67; 67; 67; 65; 84; 67; 71; 67; 67; 71; 84; 67; 65; 84; 67; 71; 71; 67; 84; 67; 71; 71; 67; 65; 84; 71; 67; 65; 71; 65; 84; 84; 67; 67; 67; 65; 71; 71; 67; 71]%Z) None;
+            PG.KScoringInit 1 (PG.PDict [(PG.PStr [65%Z], PG.PList [PG.PFloat 13836375273433464832; PG.PFloat 13836375273433464832; PG.PFloat 13836375273433464832; PG.PFloat 13836375273433464832; PG.PFloat 4610818423222435840; PG.PFloat 13836375273970335744; PG.PFloat 13836375272896593920; PG.PFloat 13836375273970335744; PG.PFloat 4606051736447090688; PG.PFloat 4606051736447090688; PG.PFloat 13836375273433464832; PG.PFloat 13836375272896593920; PG.PFloat 4610818423222435840; PG.PFloat 4610818423222435840; PG.PFloat 13836375272896593920]); (PG.PStr [67%Z], PG.PList [PG.PFloat 13836375273433464832; PG.PFloat 13836375273433464832; PG.PFloat 13836375273433464832; PG.PFloat 13836375273433464832; PG.PFloat 13836375272896593920; PG.PFloat 4606051736447090688; PG.PFloat 4610818423222435840; PG.PFloat 4606051736447090688; PG.PFloat 13836375273970335744; PG.PFloat 13836375273970335744; PG.PFloat 13836375273433464832; PG.PFloat 4610818423222435840; PG.PFloat 13836375272896593920; PG.PFloat 13836375272896593920; PG.PFloat 4610818423222435840]); (PG.PStr [84%Z], PG.PList [PG.PFloat 13836375273433464832; PG.PFloat 4610818422148694016; PG.PFloat 4610818422148694016; PG.PFloat 13836375273433464832; PG.PFloat 13836375272896593920; PG.PFloat 4606051736447090688; PG.PFloat 13836375272896593920; PG.PFloat 4606051736447090688; PG.PFloat 4606051736447090688; PG.PFloat 13836375273970335744; PG.PFloat 4610818422148694016; PG.PFloat 13836375272896593920; PG.PFloat 13836375272896593920; PG.PFloat 13836375272896593920; PG.PFloat 13836375272896593920]); (PG.PStr [71%Z], PG.PList [PG.PFloat 4610818422148694016; PG.PFloat 13836375273433464832; PG.PFloat 13836375273433464832; PG.PFloat 4610818422148694016; PG.PFloat 13836375272896593920; PG.PFloat 13836375273970335744; PG.PFloat 13836375272896593920; PG.PFloat 13836375273970335744; PG.PFloat 13836375273970335744; PG.PFloat 4606051736447090688; PG.PFloat 13836375273433464832; PG.PFloat 13836375272896593920; PG.PFloat 13836375272896593920; PG.PFloat 13836375272896593920; PG.PFloat 13836375272896593920]); (PG.PStr [78%Z], PG.PList [PG.PFloat 18442240474082181120; PG.PFloat 18442240474082181120; PG.PFloat 18442240474082181120; PG.PFloat 18442240474082181120; PG.PFloat 18442240474082181120; PG.PFloat 18442240474082181120; PG.PFloat 18442240474082181120; PG.PFloat 18442240474082181120; PG.PFloat 18442240474082181120; PG.PFloat 18442240474082181120; PG.PFloat 18442240474082181120; PG.PFloat 18442240474082181120; PG.PFloat 18442240474082181120; PG.PFloat 18442240474082181120; PG.PFloat 18442240474082181120])]) None None;
+            PG.KScan 2 (PG.PRef 1) (PG.PRef 0) (Some (PG.PFloat 13845191154443747328)) (Some (PG.PInt 4));
+            PG.KNext 2 None;
+            PG.KScan 3 (PG.PRef 1) (PG.PRef 0) (Some (PG.PFloat 13845191154443747328)) (Some (PG.PInt 1));
+            PG.KNext 3 None;
+            PG.KCalculate 4 1 (PG.PRef 0);
+            PG.KThreshold 4 (PG.PFloat 0)] in
+  let r := PG.run_history KM_ex [] h in
+  nth 3 r (PG.Unbound _ _ _ _ _) = PG.Done _ _ _ _ _ (PG.Value (PG.RHits _ _ _ _ _ [(27, 3234719710); (32, 3239010474); (18, 3232763308)]%Z true)) /\
+  nth 5 r (PG.Unbound _ _ _ _ _) = PG.Done _ _ _ _ _ (PG.Value (PG.RHits _ _ _ _ _ [(32, 3239010474); (18, 3232763308); (27, 3234719710)]%Z true)) /\
+  nth 7 r (PG.Unbound _ _ _ _ _) = PG.Done _ _ _ _ _ (PG.Value (PG.RIdx _ _ _ _ _ [3250098505; 3247795665; 3245572556; 3247306564; 3247795665; 3250098504; 3247306564; 3248284766; 3252401343; 3253725981; 3244594355; 3251912243; 3245572557; 3240966876; 3240966878; 3249609402; 3256555781; 3254215081; 3232763308; 3250587606; 3247795666; 3245572557; 3255648912; 3247306563; 3240966878; 3254215083; 3250098505; 3234719710; 3254704183; 3250098505; 3245572556; 3254704183; 3239010474; 3251912244; 3252401343; 3244594356; 3245572557; 3251912244; 3250098504; 3247795666; 3244594354; 3247795665; 3251912243; 3246471027; 3247306564; 3247795665; 3247306564; 3244594354; 3254215081; 3247795665]%Z)).
+Proof. vm_compute. repeat split; reflexivity. Qed.
 
 (* the hypotheses of pycore_call_no_panic_partial are satisfiable: the example core is total on everything it
    provides, and the state after the first three calls of the example history is well labelled - its matrices
